@@ -10,6 +10,7 @@ import (
 	"math/rand"
 	"os"
 	"os/exec"
+	"path/filepath"
 	"sort"
 	"time"
 	. "zharness/hz"
@@ -256,6 +257,36 @@ type built struct {
 func build(cfg *genesis.GenesisConfig) built {
 	g := genesis.NewGenesis(cfg)
 	return built{hash: g.GetGenesisMomentum().Hash, dump: g.GetGenesisTransaction().Changes.Dump(), g: g}
+}
+
+func loadPaths(out *Out, cfg *genesis.GenesisConfig, b0 built, i int) {
+	data, err := json.MarshalIndent(cfg, "", "  ")
+	if err != nil {
+		out.Oracle(false, "config-does-not-marshal", M{"err": err.Error()})
+		return
+	}
+	dir, _ := os.MkdirTemp("", "c20file")
+	defer os.RemoveAll(dir)
+	path := filepath.Join(dir, "genesis.json")
+	if err := os.WriteFile(path, data, 0600); err != nil {
+		panic(err)
+	}
+	g, err := genesis.ReadGenesisConfigFromFile(path)
+	if err != nil || g == nil {
+		out.Oracle(false, "consistent-config-refused-from-file", M{"config": i, "err": fmt.Sprint(err)})
+		return
+	}
+	same := g.GetGenesisMomentum().Hash == b0.hash && bytes.Equal(g.GetGenesisTransaction().Changes.Dump(), b0.dump) &&
+		len(g.GetGenesisMomentum().Content) == len(b0.g.GetGenesisMomentum().Content)
+	out.Oracle(same, "file-loaded-genesis-equals-in-memory-genesis",
+		M{"config": i, "spork_section": cfg.SporkConfig != nil, "from_file": g.GetGenesisMomentum().Hash.String(), "in_memory": b0.hash.String(),
+			"blocks_from_file": len(g.GetGenesisMomentum().Content), "blocks_in_memory": len(b0.g.GetGenesisMomentum().Content)})
+	// and decoded by hand (what an embedding program does) and built again
+	var back genesis.GenesisConfig
+	if err := json.Unmarshal(data, &back); err == nil {
+		out.Oracle(build(&back).hash == b0.hash, "json-round-trip-of-config-same-genesis", M{"config": i})
+	}
+	out.Count(fmt.Sprintf("load-paths:spork-section=%v", cfg.SporkConfig != nil))
 }
 
 // ---- perturbations: every single-entry change of a consistent configuration that breaks consistency
@@ -509,6 +540,9 @@ func runGenesis(rng *rand.Rand, n int, out *Out, _ []string) {
 		}
 		out.Oracle(true, "consistent-config-refused", nil)
 		b0 := build(cfg)
+		// the same configuration reaching a node by its other load path — written as the JSON file a node is started
+		// with and read back by the product's own loader — is the same chain (same hash, same genesis transaction)
+		loadPaths(out, cfg, b0, i)
 		// construction: per-account patch and the content order
 		pool := genesis.VerifGenesisAccountPool(cfg)
 		blocks := pool.GetAllUncommittedAccountBlocks()
